@@ -298,7 +298,7 @@ def make_inputs(tmp):
     except Exception:
         pass
     # static-only case: EIG has nothing to analyse
-    out.append(('eig-without-states', andes.get_case('ieee14/ieee14.json'), ['eig'], {}, False))
+    out.append(('eig-without-states', andes.get_case('ieee14/ieee14.raw'), ['eig'], {}, False))
     # unstable disturbance: long fault trips the stability criterion
     ss = andes.load(andes.get_case('kundur/kundur_full.xlsx'), setup=False, no_output=True, default_config=True)
     ss.add('Fault', dict(bus=ss.Bus.idx.v[6], tf=0.1, tc=2.0, xf=1e-4))
